@@ -177,8 +177,8 @@ func minMax(bits int, signed bool) (*big.Int, *big.Int) {
 
 // rangeFact: in math mode, a Go integer value lies within its type's range.
 func (e *Enc) rangeFact(term string, t types.Type) string {
-	if e.bv {
-		return ""
+	if e.bv || isGhostInt(t) {
+		return "" // mathematical integers have no machine range
 	}
 	bits, signed, ok := intInfo(t)
 	if !ok {
